@@ -277,6 +277,25 @@ impl Node {
 			txs.len(),
 			stem.len()
 		);
+		// every entry - txpool, stempool, reorg cache - pays the minimum fee for its weight, is within
+		// the weight limit and passes standalone validation
+		let cache: Vec<Transaction> = self.pool.read().reorg_cache.read().iter().map(|e| e.tx.clone()).collect();
+		for (place, list) in [("txpool", &txs), ("stempool", &stem), ("reorg-cache", &cache)] {
+			for t in list.iter() {
+				let min = t.weight() * FEE_BASE;
+				if t.shifted_fee() < min {
+					let sig = self.sig(t);
+					self.raw(&format!(
+						"#ORACLE-FAIL C14 node-pool-entry-pays-less-than-minimum-fee {}: {} entry {} pays fee {} (shifted {}) for weight {}, minimum {}",
+						here, place, sig, t.fee(), t.shifted_fee(), t.weight(), min
+					));
+				}
+				if t.weight() > global::max_tx_weight() {
+					let sig = self.sig(t);
+					self.raw(&format!("#ORACLE-FAIL C14 node-pool-entry-over-weight-limit {}: {} entry {} weight {}", here, place, sig, t.weight()));
+				}
+			}
+		}
 		let d = self.dangling(&txs);
 		if !d.is_empty() {
 			self.raw(&format!(
@@ -502,11 +521,18 @@ fn fill_pool(n: &mut Node, rng: &mut Rng, count: usize) {
 			continue;
 		};
 		let nout = rng.range(1, 2) as usize;
-		let fee = fee_for(rng, ins.len(), nout);
+		// now and then below the minimum fee for the weight: must never get in
+		let low = rng.chance(1, 8);
+		let fee = if low {
+			((ins.len() as u64 + 21 * nout as u64 + 3) * FEE_BASE).saturating_sub(1 + rng.below(5))
+		} else {
+			fee_for(rng, ins.len(), nout)
+		};
 		if let Some(tx) = n.spend(&ins, nout, fee) {
 			let src = pick_src(rng);
 			let relay_ok = !rng.chance(1, 6);
-			n.submit(tx, src, stem_path, relay_ok, kind);
+			let label = if low { format!("low-fee-{}", kind) } else { kind.to_string() };
+			n.submit(tx, src, stem_path, relay_ok, &label);
 		}
 	}
 }
